@@ -52,6 +52,10 @@ def scenarios(tier):
     out.append({'name': 'ocean_floor[two depth coordinates on one dimension]', 'fn': 'scn_floor', 'kwargs': {'positive': 'up', 'layout': 'tkyx', 'second': 'shared'}})
     out.append({'name': 'ocean_floor[two depth dimensions over one horizontal grid]', 'fn': 'scn_two_dims', 'kwargs': {}})
     out.append({'name': '_find_ocean_floor_indexes: last valid layer of every column', 'fn': 'scn_indexes', 'kwargs': {}})
+    for conv_name in ('CFGrid1D', 'CFGrid2D', 'ShocSimple', 'ShocStandard', 'UGrid'):
+        for as_coord in (True, False):
+            out.append({'name': f'dataset.ems.ocean_floor hands every depth coordinate of the dataset to the reduction[{conv_name}, layer variables held as {"coordinates" if as_coord else "plain variables"}]',
+                        'fn': 'scn_entry', 'kwargs': {'conv_name': conv_name, 'as_coord': as_coord}})
     return out
 
 
@@ -350,3 +354,55 @@ def scn_indexes(c):
 
 
 NATIVE = {'': 'ocean_floor', 'dataset.ems': 'ocean_floor_conventions'}
+
+
+ENTRY_DEPTHS = {        # convention -> [(variable, dimension, positive)]: the layer variables the dataset carries
+    'CFGrid1D': [('depth', 'k', 'down')], 'CFGrid2D': [('depth', 'k', 'down'), ('sediment_depth', 'ksed', 'down')], 'UGrid': [('layer_depth', 'nlayer', 'up')],
+    'ShocSimple': [('zc', 'k', 'up'), ('zcsed', 'ksed', 'up')], 'ShocStandard': [('z_centre', 'k_centre', 'up'), ('z_grid', 'k_grid', 'up')],
+}
+ENTRY_TIME = {'CFGrid1D': 'time', 'CFGrid2D': 'time', 'UGrid': 'time', 'ShocSimple': 'time', 'ShocStandard': 't'}
+
+
+def scn_entry(c, conv_name, as_coord):
+    """Convention.depth_coordinates / Convention.ocean_floor: the reduction (contract: the scenarios above) is applied to the dataset itself,
+    with EVERY layer variable of the dataset - whether it is held as an xarray coordinate or as a plain variable - and with the time
+    coordinate as the only non-spatial variable."""
+    from contracts import inputs
+    from pyvc.api import attr, method
+    from pyvc.contract import Contract
+    from pyvc.lib import numpy_ as np
+    from pyvc.lib.stdlib import OpaqueValue
+    MOD = 'emsarray.operations.depth'
+    it = new_interp()
+    ds, conv = inputs.make_convention(it, c, conv_name)
+    face = ds.info['dims']['face']
+    tname = ENTRY_TIME[conv_name]
+    tdim = 'record' if conv_name == 'ShocStandard' else 'time'
+    nt = sym_size(c, 'nt', 0)
+    add_var(ds, tname, (tdim,), np.NDArray((nt,), sym_array(c, 'tv', (nt,), 'V').fn, np.DATETIME), {}, {'units': 'days since 1990-01-01', 'calendar': 'standard'}, coord=True)
+    for name, dim, positive in ENTRY_DEPTHS[conv_name]:
+        n = sym_size(c, 'n_' + dim, 1)
+        add_var(ds, name, (dim,), sym_array(c, name, (n,), 'real'), {'positive': positive, 'axis': 'Z'}, coord=as_coord)
+        shape = (nt, n) + tuple(ds._sizes()[d] for d in face)
+        add_var(ds, 'data_' + name, (tdim, dim) + tuple(face), sym_array(c, 'data_' + name, shape, 'floatnan'))
+    calls = []
+
+    def post(it_, a):
+        calls.append(a)
+        return OpaqueValue('floor')
+    it.contracts[(MOD, 'ocean_floor')] = Contract(MOD, 'ocean_floor', post=post, verified_by='C12 ocean_floor scenarios')
+    want = [name for name, _, _ in ENTRY_DEPTHS[conv_name]]
+    dcs = expect_ok(c, 'depth_coordinates returns', lambda: attr(it, conv, 'depth_coordinates'))
+    got = [getattr(d, 'name', None) for d in dcs]
+    c.check(f'depth_coordinates are exactly the layer variables of the dataset, each once: {want}', sorted(map(str, got)) == sorted(want), note=f'got {got}')
+    c.check('each of them is the variable of the dataset itself', all(getattr(d, 'variable', None) is not None and d.variable.arr is ds._vars[d.name].arr for d in dcs if d.name in ds._vars))
+    r = expect_ok(c, 'dataset.ems.ocean_floor() returns', lambda: method(it, conv, 'ocean_floor'))
+    c.check('the reduction is called exactly once, on the dataset itself', len(calls) == 1 and calls[0].get('dataset') is ds)
+    if len(calls) != 1:
+        raise PathEnd()
+    given = list(it.iterate(calls[0].get('depth_coordinates')))
+    c.check('every layer variable of the dataset is handed to the reduction', sorted(str(getattr(g, 'name', g)) for g in given) == sorted(want))
+    nsv = calls[0].get('non_spatial_variables')
+    nsv = list(it.iterate(nsv)) if nsv is not None else []
+    c.check('the time coordinate is the one non-spatial variable', [str(getattr(g, 'name', g)) for g in nsv] == [tname])
+    c.check('the result of the reduction is returned as it is', r is not None and getattr(r, 'what', None) == 'floor' or isinstance(r, OpaqueValue))
